@@ -14,7 +14,7 @@ import (
 func prepareValues(values []interface{}, db *DB, columnTypes []*sql.ColumnType, columns []string) {
 	if db.Statement.Schema != nil {
 		for idx, name := range columns {
-			if field := db.Statement.Schema.LookUpField(name); field != nil {
+			if field := db.Statement.Schema.LookUpField(name); field != nil && field.Serializer == nil {
 				values[idx] = reflect.New(reflect.PointerTo(field.FieldType)).Interface()
 				continue
 			}
